@@ -316,6 +316,25 @@ func (i *Inst) runFrontStep(s *FrontScript, tw *TraceWriter, rng *rand.Rand, jar
 		// a user name that is the right one plus such bytes, with the right user's password: that user does not exist
 		set("basic", true, false, "")
 		one(az("Basic " + b64([]string{"7\xff:pw-7", "\xc07:pw-7", "7\xe9:pw-7"}[rng.Intn(3)])))
+	case "basic-wrong-while-right-in-flight", "basic-right-while-wrong-in-flight":
+		// two requests of the same user from the same client address at the same time, one with the right and one with
+		// a wrong password, while the authentication backend takes its time over the first: each gets its own verdict
+		first, second := "slow7:pw-slow7", "slow7:not-the-password"
+		if s.Authz == "basic-right-while-wrong-in-flight" {
+			first, second = second, first
+			set("basic", true, true, "slow7")
+		} else {
+			set("basic", true, false, "")
+		}
+		go func() {
+			if c, err := i.hdial(); err == nil {
+				c.do("GET", host, i.R.NextCid("h"), [][2]string{az("Basic " + b64(first))}, false)
+				c.c.Close()
+			}
+		}()
+		time.Sleep(120 * time.Millisecond)
+		one(az("Basic " + b64(second)))
+		time.Sleep(350 * time.Millisecond)
 	case "basic-unknown":
 		set("basic", true, false, "")
 		one(az("Basic " + b64("nobody:pw-nobody-x")))
